@@ -459,13 +459,14 @@ def call_name(call: ast.Call) -> str | None:
 def walk_no_nested(node):
     """ast.walk that does not descend into nested function/class definitions
     (lambdas and comprehensions are descended)"""
-    stack = list(ast.iter_child_nodes(node))
+    # depth-first, pre-order, in source order
+    stack = list(ast.iter_child_nodes(node))[::-1]
     while stack:
         n = stack.pop()
         yield n
         if isinstance(n, (ast.FunctionDef, ast.AsyncFunctionDef, ast.ClassDef)):
             continue
-        stack.extend(ast.iter_child_nodes(n))
+        stack.extend(list(ast.iter_child_nodes(n))[::-1])
 
 
 def calls_in(node, nested=False):
